@@ -240,6 +240,68 @@ namespace xv
 #define XV_PROBE_INSTANTIATE
 #endif
 
+// batch (op) scalar / scalar (op) batch spellings: the scalar operand comes lane by lane from the second (first)
+// operand array; lane l of the result is lane l of `batch OP scalar_l`, so the element-wise reference applies unchanged
+#define XV_SCALAR_RHS(NAME, EXPR) /* EXPR over batch a and scalar s */          \
+    struct NAME                                                                \
+    {                                                                          \
+        template <class T, class X>                                            \
+        static X f(X const& a_, X const& b_, long)                             \
+        {                                                                      \
+            T av[X::size], bv[X::size], rv[X::size];                           \
+            a_.store_unaligned(av);                                            \
+            b_.store_unaligned(bv);                                            \
+            for (size_t l = 0; l < X::size; ++l)                               \
+            {                                                                  \
+                const X a(av[l]); /* every lane holds the pair of lane l (a division must not meet another lane's divisor) */ \
+                const T s = bv[l];                                             \
+                X r = (EXPR);                                                  \
+                rv[l] = r.get(l);                                              \
+            }                                                                  \
+            return X::load_unaligned(rv);                                      \
+        }                                                                      \
+    };
+#define XV_SCALAR_LHS(NAME, EXPR) /* EXPR over scalar s and batch b */          \
+    struct NAME                                                                \
+    {                                                                          \
+        template <class T, class X>                                            \
+        static X f(X const& a_, X const& b_, long)                             \
+        {                                                                      \
+            T av[X::size], bv[X::size], rv[X::size];                           \
+            a_.store_unaligned(av);                                            \
+            b_.store_unaligned(bv);                                            \
+            for (size_t l = 0; l < X::size; ++l)                               \
+            {                                                                  \
+                const T s = av[l];                                             \
+                const X b(bv[l]);                                              \
+                X r = (EXPR);                                                  \
+                rv[l] = r.get(l);                                              \
+            }                                                                  \
+            return X::load_unaligned(rv);                                      \
+        }                                                                      \
+    };
+// the same for comparisons (result: a mask)
+#define XV_SCALAR_CMP(NAME, EXPR, FROM_A) /* EXPR over batch x and scalar s */  \
+    struct NAME                                                                \
+    {                                                                          \
+        template <class T, class X>                                            \
+        static xs::batch_bool<T, arch> f(X const& a_, X const& b_, long)       \
+        {                                                                      \
+            T av[X::size], bv[X::size];                                        \
+            bool rv[X::size];                                                  \
+            a_.store_unaligned(av);                                            \
+            b_.store_unaligned(bv);                                            \
+            for (size_t l = 0; l < X::size; ++l)                               \
+            {                                                                  \
+                const T s = FROM_A ? av[l] : bv[l];                            \
+                const X x(FROM_A ? bv[l] : av[l]);                             \
+                xs::batch_bool<T, arch> r = (EXPR);                            \
+                rv[l] = r.get(l);                                              \
+            }                                                                  \
+            return xs::batch_bool<T, arch>::load_unaligned(rv);                \
+        }                                                                      \
+    };
+
 // f<T>(operands..., long param)
 #define XV_OP1(NAME, EXPR)                                  \
     struct NAME                                             \
